@@ -18,6 +18,13 @@ func init() {
 }
 
 func c19(c *Ctx) {
+	{
+		rp := "cmd.(*MountCommand).runProxyServer"
+		c.ExpectAll("config/passthrough-wired", c.fieldStores(rp, "http.ProxyServer.Passthroughs"), `.*http\.CompileMatch\(p0\.Config\.Proxy\.Passthrough\[.*`, 1, "the proxy's passthrough patterns are compiled from proxy.passthrough", "")
+		c.ExpectAll("config/always-forward-wired", c.fieldStores(rp, "http.ProxyServer.AlwaysForward"), `.*http\.CompileMatch\(p0\.Config\.Proxy\.AlwaysForward\[.*`, 1, "the proxy's always-forward patterns are compiled from proxy.always-forward",
+			"a copy/paste slip drops the configured patterns silently: a GET on such a path is a plain read on a replica and gets no cookie on the primary")
+		c.ExpectAll("config/db-wired", c.fieldStores(rp, "http.ProxyServer.DBName"), pat("p0.Config.Proxy.DB"), 1, "the tracked database is proxy.db", "")
+	}
 	c.ExpectAll("classify/match-anchored", c.CallArgs("http.CompileMatch", c.P.PlainCalls("regexp.Compile"), 0), pat("((\"^\" + strings.ReplaceAll(regexp.QuoteMeta(p0), \"\\\\*\", \".*\")) + \"$\")"), 1,
 		"a passthrough / always-forward pattern is compiled anchored at both ends, with only the escaped '*' turned into a wildcard", "without the end anchor '/healthz' also matches '/healthz/reset': a write on a replica is handed to the local application")
 	p := c.P
